@@ -432,7 +432,7 @@ def read_sequences(ctx):
                 ctx.violation("frames", f"{fmt}:load_one:independent-writer-frame-rejected", {"format": fmt, "frame": k}, f"{fmt}: menu frame {k} alone is rejected: {sres[1]}")
             else:
                 usable.append(k)
-        maxlen = 4 if ctx.thorough else 3
+        maxlen = 5 if ctx.thorough else 3
         for n in range(1, maxlen + 1):
             for seq in itertools.product(usable, repeat=n):
                 jobs.append((fmt, seq, texts, singles))
@@ -487,7 +487,7 @@ def run(ctx):
     maxlen = 3
     seqs = [s for n in range(1, maxlen + 1) for s in itertools.product(range(NFRAME_MENU), repeat=n)]
     if ctx.thorough:
-        seqs += [s for s in itertools.product(range(NFRAME_MENU), repeat=4)]
+        seqs += [s for n in (4, 5) for s in itertools.product(range(NFRAME_MENU), repeat=n)]
         seqs.append(tuple(i % NFRAME_MENU for i in range(50)))
     jobs = []
     for fmt in DUMP_FORMATS:
@@ -524,9 +524,9 @@ def run(ctx):
     ctx.cov.update(sequences=len(seqs), dump_jobs=len(jobs), fault_files=len(fjobs))
     ctx.exhaustive = True
     ctx.rule = (
-        f"all frame sequences of length <= {maxlen} (thorough: <= 4 plus one 50-frame sequence) over a menu of 6 frames (1/2/3/11 atoms, titles present/absent/numeric, bonds, charges) x 4 dump_many formats x "
+        f"all frame sequences of length <= {maxlen} (thorough: <= 5 plus one 50-frame sequence) over a menu of 6 frames (1/2/3/11 atoms, titles present/absent/numeric, bonds, charges) x 4 dump_many formats x "
         "{list, generator, generator raising at every item}; reloaded frames are compared bit-exactly with a per-frame dump_one+load_one; pulls and writes share one event log (laziness). "
-        "Read side: all sequences of length <= 3 (thorough: 4) over 5-6 heterogeneous frame texts per format from independent writers (blank/numeric titles, optional bond/charge/velocity sections, "
+        "Read side: all sequences of length <= 3 (thorough: 5) over 5-6 heterogeneous frame texts per format from independent writers (blank/numeric titles, optional bond/charge/velocity sections, "
         "differing extXYZ Properties lists) for XYZ, SDF, MOL2, PDB, GRO, extXYZ; every yielded frame is compared bit-exactly with the same text loaded alone in a fresh forked process, and a single load "
         "after the trajectory must still agree with it. Fault enumeration on 2-3 multi-frame files per format (XYZ, PDB, MOL2, SDF from dump_one texts; GRO and extXYZ from independent mini writers): truncation after every line, "
         "every numeric field of every non-last frame replaced by each of {x, 1e, -, 999999}. FCHK optimisation/IRC/scan trajectories of the corpus against an independent parse of counts and energies."
